@@ -24,6 +24,7 @@ mod c04;
 mod c05;
 mod c14;
 mod c15;
+mod c16;
 mod sess;
 mod sessgen;
 mod c07;
@@ -71,6 +72,7 @@ fn main() {
         "C12" => drv::run_c12,
         "C13" => c13::run,
         "C15" => c15::run,
+        "C16" => c16::run,
         "C17" => c17::run,
         "C18" => c18::run,
         _ => {
